@@ -583,6 +583,71 @@ def run(tier="quick", replay=None):
                     "run_program defaults to operator-set version %r, the latest is %r" % (dflt, maxver))
     R.floor("R20.RUN", "version arms", len([1 for x in run_sel.values() if x]), 3, RUNNER)
 
+    # ---------------- TABLES: any other literal table that pairs opcodes with operator names ------------------
+    # A const/static array whose rows carry an operator NAME (a keyword of the assembler table) next to integers is an
+    # opcode table if, for most rows, the name's opcode is one of those integers; its remaining rows are mismatches.
+    opcode_of_name = {r["name"]: be_int(r["bytes"]) for r in kw}
+    ntab = 0
+    for item, h in sorted(prog.hir.items()):
+        if item in (KW_ITEM, PRIMS_FN):
+            continue
+        for arr in find_arrays(h):
+            rows = []
+            for row in arr:
+                if not isinstance(row, (dict, list)):
+                    continue
+                strs = [x for x in lits(row, "str") if x in opcode_of_name]
+                ints = set(lits(row, "int"))
+                for sub in find_arrays(row):
+                    iv = [x.get("v") for x in sub if isinstance(x, dict) and x.get("lit") == "int"]
+                    if iv and len(iv) == len(sub):
+                        ints.add(be_int(iv))
+                if len(strs) == 1 and ints:
+                    rows.append((strs[0], ints))
+            if len(rows) < 4:
+                continue
+            good = [r for r in rows if opcode_of_name[r[0]] in r[1]]
+            if len(good) * 5 < len(rows) * 4:
+                continue           # not an opcode table (e.g. name -> arity)
+            ntab += 1
+            for name, ints in rows:
+                R.check(opcode_of_name[name] in ints, "R20.TABLES", "R20.TABLES|%s|%s" % (item, name), item,
+                        "auto: row for %r carries its opcode %d" % (name, opcode_of_name[name]),
+                        "table %s pairs operator %r with %s, but its opcode in the keyword table is %d%s" % (
+                            item, name, sorted(ints), opcode_of_name[name],
+                            "".join("; %d is the opcode of %r" % (i, n2) for i in sorted(ints) for n2, o2 in opcode_of_name.items() if o2 == i and n2 != name)))
+    R.counts["other opcode tables found"] = ntab
+
+    # ---------------- OPS: the `run` tool's own evaluator picks its base dialect from the CURRENT version on every call
+    OPS_OP = "<classic::clvm_tools::stages::stage_2::operators::CompilerOperatorsInternal as clvm_rs::dialect::Dialect>::op"
+    g0 = prog.fn(OPS_OP)
+    if g0 is None:
+        R.viol("R20.OPS", "R20.OPS|anchor-lost|op", OPS_OP, "anchor lost: CompilerOperatorsInternal::op")
+    else:
+        import inline
+        base_p = inline.default_pred(prog, g0)
+        g = inline.inlined(prog, g0, pred=lambda h: base_p(h) and inline.same_module(g0, h) and len(h.blocks) <= 60, depth=2)
+        gdefs = Defs(g)
+        gv = None
+        for bbx, tx in g.calls():
+            if (callee_of(tx) or "").endswith("unwrap_or") and g.local_ty(tx["dest"]["l"]) == "usize":
+                gv = tx["dest"]["l"]
+        sel = {}
+        if gv is not None:
+            for v in range(0, maxver + 1):
+                sel[v] = dialect_for_version(g, gdefs, gv, v)
+        ok = gv is not None and all(isinstance(sel.get(v), tuple) for v in sel) and \
+            sel.get(0, ("",))[0].endswith("OriginalDialect::new") and \
+            all(sel[v][0].endswith("ChiaDialect::new") for v in sel if v > 0)
+        R.check(ok, "R20.OPS", "R20.OPS|dialect-per-call", "%s:%s" % (g0.file, g0.line),
+                "auto: each call of CompilerOperatorsInternal::op builds OriginalDialect for version 0 and ChiaDialect for later "
+                "versions from the version read in that call",
+                "CompilerOperatorsInternal::op does not construct its base dialect from the operator-set version read in the same "
+                "call (per version: %s): a dialect cached across calls goes stale when set_operators_version changes the version, "
+                "so operators of the selected version are reported unimplemented" % (
+                    {v: (x[0].rsplit("::", 2)[-2] if isinstance(x, tuple) else x) for v, x in sel.items()} or "version not read"),
+                fn=OPS_OP)
+
     no_unknown = cprog.consts.get("chia_dialect::NO_UNKNOWN_OPS", {}).get("int")
     keccak_flag = cprog.consts.get("chia_dialect::ENABLE_KECCAK_OPS_OUTSIDE_GUARD", {}).get("int")
     R.check(no_unknown is not None and keccak_flag is not None, "R20.RUN.flags", "R20.RUN.flags|consts",
